@@ -476,7 +476,12 @@ func exec(planJSON []byte, run *core.Run) {
 
 	safeVerify := func(f func([]byte, []byte, string, []byte) bool, what string, pk, m []byte, c string, sg []byte) (bool, bool) {
 		ok := false
+		pkK, mK, sgK := append([]byte{}, pk...), append([]byte{}, m...), append([]byte{}, sg...)
 		pan, v, st := core.Try(func() { ok = f(pk, m, c, sg) })
+		if !pan && (!bytes.Equal(pk, pkK) || !bytes.Equal(m, mK) || !bytes.Equal(sg, sgK)) {
+			run.Violate(comp+".Verify", "operation-modifies-its-operand", "%s: verification changed its public key / message / signature buffer", what)
+			return false, false
+		}
 		if pan {
 			run.Violate(comp+".Verify", core.PanicClass(v), "%s: pk %d bytes, msg %d bytes, ctx %d bytes, sig %d bytes: %s at %s", what, len(pk), len(m), len(c), len(sg), v, st)
 			return false, false
@@ -511,7 +516,12 @@ func exec(planJSON []byte, run *core.Run) {
 			signf = sf
 			run.Fault("disk:signer-restart")
 		}
+		msgKeep := append([]byte{}, msg...)
 		sig := signf(msg, ctx)
+		if !bytes.Equal(msg, msgKeep) {
+			run.Violate(comp+".Sign", "operation-modifies-its-operand", "message %d: signing changed the message buffer", i)
+			return
+		}
 		run.Event("signer", "sign", i, sig)
 		run.Tick(1)
 		if len(sig) != in.sigSize {
